@@ -43,6 +43,8 @@ class Path:
 class Ctx:
     def __init__(self):
         self.query_timeout_ms = 120000
+        import os as _os
+        self.cross_left = int(_os.environ.get("VERIF_CROSSCHECK") or (25 if _os.environ.get("VERIF_TIER_ACTIVE") == "thorough" else 5))
         self.deadline = None          # wall-clock budget of the current job (set by the harness); exceeding it is inconclusive
         self.stats = {"queries": 0, "solver_s": 0.0, "sat": 0, "unsat": 0, "unknown": 0,
                       "paths": 0, "forks": 0, "aborted": 0, "sign_shortcuts": 0}
@@ -110,10 +112,48 @@ class Ctx:
         self.stats["queries"] += 1
         self.stats["solver_s"] += dt
         self.stats[r if r in ("sat", "unsat") else "unknown"] += 1
+        if self.cross_left > 0 and r in ("sat", "unsat") and dt < 5.0:
+            self._crosscheck(s, r)
         model = None
         if r == "sat" and want_model:
             model = s.model()
         return (r, model)
+
+    def _crosscheck(self, solver, verdict):
+        """Second opinion from cvc5 on a sample of the queries z3 decided quickly (thorough tier / VERIF_CROSSCHECK):
+        a definite disagreement is a harness error; cvc5 `unknown` / timeout is only counted."""
+        self.cross_left -= 1
+        try:
+            import cvc5
+        except ImportError:
+            self.cross_left = 0
+            return
+        txt = "(set-logic QF_NRA)\n" + solver.to_smt2()
+        try:
+            tm = cvc5.TermManager()
+            sv = cvc5.Solver(tm)
+            sv.setOption("tlimit-per", "8000")
+            ps = cvc5.InputParser(sv)
+            ps.setStringInput(cvc5.InputLanguage.SMT_LIB_2_6, txt, "q")
+            sm = ps.getSymbolManager()
+            out = "unknown"
+            while True:
+                c = ps.nextCommand()
+                if c.isNull():
+                    break
+                res = str(c.invoke(sv, sm)).strip()
+                if res in ("sat", "unsat", "unknown"):
+                    out = res
+        except Exception as e:  # noqa - parser / option differences are not verdicts
+            self.stats["cross_error"] = self.stats.get("cross_error", 0) + 1
+            return
+        self.stats["cross_checked"] = self.stats.get("cross_checked", 0) + 1
+        if out == verdict:
+            self.stats["cross_agree"] = self.stats.get("cross_agree", 0) + 1
+        elif out in ("sat", "unsat"):
+            raise Inconclusive(f"solver disagreement: z3 {verdict}, cvc5 {out}")
+        else:
+            self.stats["cross_unknown"] = self.stats.get("cross_unknown", 0) + 1
 
     def feasible(self, b):
         r, _ = self.check([b], use_pc=True)
